@@ -343,6 +343,28 @@ def _work(rng, cl, src, class_names, n_pool, entry):
                                   "what": f"after building the hierarchy edge by edge with queries in between: is_subclass({a}, {b}) = {got}, "
                                           f"issubclass (+ numeric tower) says {exp[(a, b)]}",
                                   "replay": {"law": "incremental", "history": plan_to_json(rp), "src": src, "classes": class_names}})
+    # stateful sequences: other public queries (get_type_outside_of, get_subclasses, get_superclasses, find_by_attribute,
+    # to_type_info, ...) interleaved with subsumption queries on a fresh system with the complete graph
+    from props._c25_history import gen_stateful_plan, run_stateful, shrink_splan, splan_from_json, splan_to_json
+
+    set_results = []
+    plans = [splan_from_json(entry["stateful"])] if entry is not None and "stateful" in entry else \
+        [gen_stateful_plan(rng, cl, pool, 30) for _ in range(2 if entry is None else 0)]
+    for sp in plans:
+        sfails, sets = run_stateful(cl, sp, exp)
+        set_results += sets
+        count("stateful:ops", len(sp))
+        for k in sp:
+            count("stateful-op:" + k[0])
+        for sig, what in sfails:
+            if sig in seen_sig:
+                count("oracle-repeat:" + sig)
+                continue
+            seen_sig.add(sig)
+            small = shrink_splan(cl, sp, exp, sig)
+            what2 = next((w for s2, w in run_stateful(cl, small, exp)[0] if s2 == sig), what)
+            fails.append({"signature": sig, "what": what2,
+                          "replay": {"law": "stateful", "plan": splan_to_json(small), "src": src, "classes": class_names}})
     # --- the case for Coq -----------------------------------------------------------------
     used = set(cl.universe)
     for a, b in pairs:
@@ -354,6 +376,15 @@ def _work(rng, cl, src, class_names, n_pool, entry):
     for a, b, got, plen in cq:
         qs.append(f"C25.QSubclass {num.cls(a)} {num.cls(b)} {cbool(got)}")
         qs.append(f"C25.QPath {num.cls(b)} {num.cls(a)} {cm.c_optN(plen)}")
+    univ_c = clist(num.cls(n) for n in cl.universe)
+    for kind, arg, res in set_results:
+        res_c = clist(num.cls(n) for n in res)
+        if kind == "outside":
+            qs.append(f"C25.QOutside {univ_c} {clist(num.cls(n) for n in arg)} {res_c}")
+        elif kind == "subclasses":
+            qs.append(f"C25.QSubclasses {univ_c} {num.cls(arg)} {res_c}")
+        else:
+            qs.append(f"C25.QSuperclasses {univ_c} {num.cls(arg)} {res_c}")
     done = set()
     for a, b in pairs:
         for x, y in ((a, b), (b, a)):
@@ -470,6 +501,15 @@ def replay(ctx, path):
 
     cl = cm.Cluster(Path(ctx.mkscratch()), "c25_replay", rp["src"], rp["classes"])
     orc = Oracle(cl)
+    if rp["law"] == "stateful":
+        from props._c25_history import run_stateful, splan_from_json
+
+        plan = splan_from_json(rp["plan"])
+        fails, sets = run_stateful(cl, plan, expected_subclass(cl))
+        print("plan:", plan)
+        print("set-valued answers:", sets)
+        print("oracle:", fails)
+        return 0
     if rp["law"] == "incremental":
         from props._c25_history import plan_from_json, run_history
 
